@@ -236,9 +236,10 @@ def water_storage_scan(repo):
     return bad
 
 
-def surf_call(el, cs):
+def surf_call(el, cs, set_temps=True):
     """Run the REAL (fractionised) Element.SurfFlux on the element's current state."""
-    el.layerTemp = list(cs['t'])
+    if set_temps:
+        el.layerTemp = list(cs['t'])
     el.solRec, el.infra = cs['solRec'], cs['infra']
     forc = NS(pres=cs['pres'], prec=F(0), deepTemp=cs['deepT'])
     par = NS(vegStart=cs['s'], vegEnd=cs['e'], vegAlbedo=cs['va'], grassFLat=cs['gf'], treeFLat=cs['tf'],
@@ -419,6 +420,435 @@ def run_surfflux_(chk, pkg):
                            'an AST scan of the tree under test checks this on every run, and the elements built by the harness are checked to start at 0')
 
 
+# ----------------------------------------------------------------------------- round 4: circumstances
+# The property speaks about the stored heat of THE STEPPED ELEMENT over any sequence of steps. The ties above step one
+# private element the way SurfFlux does. The families below vary what is not an input of the property at all:
+# who else holds the temperature list, who looks at the element between two steps, the logging level, the interpreter
+# mode, the route by which the element was built, which other elements live (or were parsed) in the process.
+def _conv(mode):
+    return (lambda x: x) if mode == 'exact' else float
+
+
+def build_element(impl, cs, conv, temps=None):
+    Element, Material = impl.element.Element, impl.material.Material
+    if cs.get('kind') == 'shared-material':
+        one = Material(conv(cs['k'][0]), conv(cs['c'][0]), 'm')
+        mats = [one] * len(cs['k'])
+    else:
+        mats = [Material(conv(k), conv(c), 'm') for k, c in zip(cs['k'], cs['c'])]
+    el = Element(conv(F(1, 10)), conv(F(9, 10)), [conv(x) for x in cs['d']], mats, conv(F(0)), conv(F(293)), 1, 'e')
+    el.layerTemp = [conv(x) for x in cs['t']] if temps is None else temps
+    return el
+
+
+def call_cond(el, cs, conv, dt=None):
+    bc = 1 if cs['bc'] == 'flux' else 2
+    return el.Conduction(conv(cs['dt'] if dt is None else dt), conv(cs['flx1']), bc,
+                         conv(cs['v2']) if bc == 2 else conv(F(0)), conv(cs['v2']) if bc == 1 else conv(F(0)))
+
+
+def balance_msg(cs, before, after, tol, dt=None):
+    """C11 as the CALLER books it: heat stored in `after` minus heat stored in `before` (the caller's own records of
+    the profile) against the heat supplied by the step(s). tol = 0: exact."""
+    d, k, c = cs['d'], cs['k'], cs['c']
+    n = len(d)
+    b = [F(x) for x in before]
+    a = [F(x) for x in after]
+    dt = cs['dt'] if dt is None else dt
+    scale = sum(c[j] * d[j] * abs(b[j]) for j in range(n)) or F(1)
+    if cs['bc'] == 'flux':
+        lhs = sum(c[j] * d[j] * (a[j] - b[j]) for j in range(n))
+        rhs = dt * (cs['flx1'] + cs['v2'])
+    else:
+        if abs(a[-1] - cs['v2']) > tol:
+            return 'deep layer %s is not the deep temperature %s' % (float(a[-1]), float(cs['v2']))
+        g = 2 / (d[n - 2] / k[n - 2] + d[n - 1] / k[n - 1])
+        deep = g * (F(1, 2) * (a[n - 2] - a[n - 1]) + F(1, 2) * (b[n - 2] - b[n - 1]))
+        lhs = sum(c[j] * d[j] * (a[j] - b[j]) for j in range(n - 1))
+        rhs = dt * (cs['flx1'] - deep)
+    if abs(lhs - rhs) > tol * scale:
+        return 'stored heat changed by %.6f J/m2, heat supplied at the two faces x dt = %.6f J/m2' % (float(lhs), float(rhs))
+    return None
+
+
+def vary_step(rng, base):
+    cs = dict(base)
+    cs['dt'] = F(rng.choice([1, 60, 300, 600, 900, 1800, 3600]))
+    cs['bc'] = rng.choice(['flux', 'deep'])
+    cs['flx1'] = rq(rng, -500, 900, 10)
+    cs['v2'] = rq(rng, -300, 300, 10) if cs['bc'] == 'flux' else rq(rng, 270, 300, 10)
+    return cs
+
+
+OWNERSHIP = ('kept-reference', 'rejected-trial-steps', 'shallow-copy-before-step', 'two-elements-one-initial-list',
+             'result-kept-by-caller', 'constructor-lists-shared')
+
+
+def ownership_case(impl, mode, rng, scen, cs):
+    """one ownership scenario; returns a list of messages (empty = fine)"""
+    import copy as _copy
+    import u3_util as U3
+    conv = _conv(mode)
+    tol = F(0) if mode == 'exact' else F(1, 10 ** 9)
+    msgs = []
+    el = build_element(impl, cs, conv)
+    p = el.layerTemp
+    snap = list(p)
+    if scen == 'kept-reference':
+        new = call_cond(el, cs, conv)
+        if new is p:
+            msgs.append('Conduction returned the list object behind layerTemp instead of a new profile')
+        if list(p) != snap:
+            msgs.append('the list the caller kept as "temperatures before the step" was rewritten by the step: %s -> %s'
+                        % ([float(x) for x in snap[:3]], [float(x) for x in p[:3]]))
+        el.layerTemp = new
+        m = balance_msg(cs, p, el.layerTemp, tol)
+        if m:
+            msgs.append('caller books E(now) - E(kept list): ' + m)
+    elif scen == 'rejected-trial-steps':
+        st0 = U3.state(el)
+        for dt_try in rng.sample([1, 60, 900, 1800, 3600, 7200], 3):
+            r1 = call_cond(el, cs, conv, dt=F(dt_try))
+            r2 = call_cond(el, cs, conv, dt=F(dt_try))
+            if list(r1) != list(r2):
+                msgs.append('the same trial step (dt %d) evaluated twice gives two results: %s vs %s'
+                            % (dt_try, [float(x) for x in r1[:3]], [float(x) for x in r2[:3]]))
+                break
+        w = U3.where(st0, U3.state(el))
+        if w:
+            msgs.append('Conduction calls whose result was discarded changed the element: ' + w)
+        el.layerTemp = call_cond(el, cs, conv)
+        m = balance_msg(cs, snap, el.layerTemp, tol)
+        if m:
+            msgs.append('three rejected trial steps, then one accepted step of %s s: %s' % (cs['dt'], m))
+    elif scen == 'shallow-copy-before-step':
+        rec = _copy.copy(el)
+        cur = cs
+        for _ in range(rng.randint(1, 3)):
+            el.layerTemp = call_cond(el, cur, conv)
+            cur = vary_step(rng, cs)
+        if list(rec.layerTemp) != snap:
+            msgs.append('a shallow copy of the element taken before the step (a record: no step, no flux) changed its '
+                        'temperatures while the live element was stepped: %s -> %s'
+                        % ([float(x) for x in snap[:3]], [float(x) for x in rec.layerTemp[:3]]))
+        r1 = call_cond(rec, cs, conv)
+        r2 = call_cond(build_element(impl, cs, conv), cs, conv)
+        if list(r1) != list(r2):
+            msgs.append('the record stepped on its own differs from a fresh element with the recorded profile')
+    elif scen == 'two-elements-one-initial-list':
+        other = dict(cs, k=[x * 2 for x in cs['k']], c=[x / 2 for x in cs['c']])
+        b = build_element(impl, other, conv, temps=p)
+        cur = cs
+        for _ in range(3):
+            el.layerTemp = call_cond(el, cur, conv)
+            cur = vary_step(rng, cs)
+        if list(b.layerTemp) != snap or list(p) != snap:
+            dE = sum(other['c'][j] * other['d'][j] * (F(b.layerTemp[j]) - F(snap[j])) for j in range(len(snap)))
+            msgs.append('two elements initialised from one profile list: stepping the first changed the second (no step, '
+                        'no flux): its stored heat moved by %.3f J/m2' % float(dE))
+        r1 = call_cond(b, other, conv)
+        r2 = call_cond(build_element(impl, other, conv), other, conv)
+        if list(r1) != list(r2):
+            msgs.append('the second element stepped afterwards differs from a fresh element with the initial profile')
+    elif scen == 'result-kept-by-caller':
+        r = call_cond(el, cs, conv)
+        r[0] = r[0] + 100                   # the caller scribbles on ITS result (never assigned to the element)
+        r2 = call_cond(el, cs, conv)
+        fresh = call_cond(build_element(impl, cs, conv), cs, conv)
+        if list(r2) != list(fresh) or list(el.layerTemp) != snap:
+            msgs.append('a result the caller discarded and overwrote reaches the element: next call gives %s, a fresh '
+                        'element %s' % ([float(x) for x in r2[:2]], [float(x) for x in fresh[:2]]))
+        el.layerTemp = r2
+        keep = list(r2)
+        cs2 = vary_step(rng, cs)
+        r3 = call_cond(el, cs2, conv)
+        if r3 is r2 or list(r2) != keep:
+            msgs.append('the profile assigned after step 1 (and still held by the caller) was rewritten by step 2')
+        m = balance_msg(dict(cs2, t=keep), r2, r3, tol)
+        if m:
+            msgs.append('step 2 booked against the caller\'s copy of the result of step 1: ' + m)
+    elif scen == 'constructor-lists-shared':
+        Element = impl.element.Element
+        b = Element(el.albedo, el.emissivity, el.layer_thickness_lst, el.material_lst, conv(F(0)), conv(F(293)), 1, 'b')
+        sb = U3.state(b)
+        for _ in range(2):
+            el.layerTemp = call_cond(el, cs, conv)
+        w = U3.where(sb, U3.state(b))
+        if w:
+            msgs.append('an element built from the same thickness / material lists changed when the other was stepped: ' + w)
+    return msgs
+
+
+SHAPES = ('descending', 'ascending', 'zigzag', 'uniform', 'steady', 'random')
+
+
+def shaped_sequence(rng, shape, n=None):
+    """an element and 2-4 steps; profile warm outside / cold outside / alternating / isothermal / steady / random"""
+    n = n or rng.choice([2, 3, 4, 4, 6, 9, 14])
+    if shape == 'steady':
+        base = gen_case(rng, n=n, kind='steady')
+        steps = []
+        for _ in range(rng.randint(2, 4)):
+            cs = dict(base, dt=F(rng.choice([60, 300, 900, 3600])))
+            steps.append(cs)
+        return base, steps
+    if shape == 'uniform':
+        base = gen_case(rng, n=n, kind='uniform')
+        return base, [dict(base, dt=F(rng.choice([60, 300, 3600]))) for _ in range(rng.randint(2, 3))]
+    base = gen_case(rng, n=n, kind='random')
+    t = sorted(base['t'])
+    if shape == 'descending':
+        t = t[::-1]
+    elif shape == 'zigzag':
+        t = [t[i // 2] if i % 2 == 0 else t[-1 - i // 2] for i in range(n)]
+    elif shape == 'random':
+        rng.shuffle(t)
+    if len(set(t)) == 1:
+        t[0] = t[0] + 5
+    base['t'] = t
+    return base, [vary_step(rng, base) for _ in range(rng.randint(2, 4))]
+
+
+def run_sequence(impl, mode, base, steps, look=None):
+    conv = _conv(mode)
+    el = build_element(impl, base, conv)
+    if look:
+        look(el)
+    out = []
+    for cs in steps:
+        r = call_cond(el, cs, conv)
+        el.layerTemp = r
+        out.append(list(r))
+        if look:
+            look(el)
+    return out, el
+
+
+def lookers():
+    import generic as G
+    import u3_util as U3
+
+    def under_debug(el):
+        with G.debug_logging():
+            import logging
+            logging.getLogger('uwg').debug('element %r', el)
+            logging.getLogger().debug('element %s', el)
+    return [('repr', lambda el: repr(el)), ('str', lambda el: str(el)), ('%r-format', lambda el: '%r' % (el,)),
+            ('print', lambda el: print(el, file=__import__('io').StringIO())),
+            ('every renderer of every reachable object', U3.render),
+            ('DEBUG log line with the element as lazy argument', under_debug),
+            ('to_dict + json', lambda el: json.dumps(el.to_dict(), default=str)),
+            ('shallow + deep copy', lambda el: (__import__('copy').copy(el), __import__('copy').deepcopy(el)))]
+
+
+def run_circumstances(chk, pkg):
+    import core
+    import generic as G
+    import uwgutil as UU
+    import u3_util as U3
+    rng = chk.rng
+    big = chk.tier == 'thorough'
+    plain = UU.uwg_mod()
+    impls = (('exact', pkg), ('float', plain))
+    dg_frac0, dg_plain0 = U3.class_digest('uwgfrac')[0], U3.class_digest('uwg')[0]
+
+    # ---- [6] who else holds the temperature list
+    nbad, ncase, br = 0, 0, {}
+    for mode, impl in impls:
+        for scen in OWNERSHIP:
+            for _ in range(4 if not big else 30):
+                cs = gen_case(rng, kind=rng.choice(['random', 'random', 'shared-material']),
+                              n=rng.choice([2, 3, 4, 5, 8, 12]))
+                ncase += 1
+                br['%s/%s' % (mode, scen)] = br.get('%s/%s' % (mode, scen), 0) + 1
+                msgs = ownership_case(impl, mode, rng, scen, cs)
+                if msgs:
+                    nbad += 1
+                    if nbad <= 3:
+                        chk.violation('impl-violation', 'ownership of the temperature list (%s, %s arithmetic)' % (scen, mode),
+                                      case=dict(case_json(cs), scenario=scen, arithmetic=mode), observed=' | '.join(msgs[:3]),
+                                      expected='only the stepped element changes, by dt x (heat supplied at its faces), and '
+                                               'only when the caller assigns the returned profile')
+    # SurfFlux: the profile found in the element is replaced, never rewritten
+    import copy as _copy
+    for _ in range(12 if not big else 100):
+        cs = gen_surf(rng, kind='random', n=rng.choice([2, 3, 5, 8]))
+        el = make_surf_element(pkg, cs)
+        old = list(cs['t'])
+        el.layerTemp = old
+        snap = list(old)
+        rec = _copy.copy(el)
+        r = surf_call(el, cs, set_temps=False)
+        ncase += 1
+        br['exact/SurfFlux-kept-reference'] = br.get('exact/SurfFlux-kept-reference', 0) + 1
+        if isinstance(r, str):
+            continue
+        msgs = []
+        if old != snap or el.layerTemp is old:
+            msgs.append('SurfFlux committed the step into the list object it found (a kept reference / a shallow record '
+                        'sees the new profile): %s -> %s' % ([float(x) for x in snap[:3]], [float(x) for x in old[:3]]))
+        if list(rec.layerTemp) != snap:
+            msgs.append('shallow copy taken before SurfFlux changed')
+        m = surf_oracle(dict(cs, t=old), r)
+        if m:
+            msgs.append('booked against the kept list: ' + m)
+        if msgs:
+            nbad += 1
+            if nbad <= 3:
+                chk.violation('impl-violation', 'ownership of the temperature list (SurfFlux)', case=case_json(cs),
+                              observed=' | '.join(msgs), expected='layerTemp is rebound to a new list')
+    chk.direct('ownership-of-the-temperature-list(Conduction, SurfFlux)', ncase, ncase,
+               'circumstance [6] - what the caller does with its own data: the REAL Conduction (exact rationals AND plain '
+               'floats) on elements whose temperature list is reachable from somewhere else: a reference kept by the '
+               'caller to book E(after) - E(before); three rejected trial steps (dt 1..7200 s, each evaluated twice) '
+               'before the accepted one; a shallow copy (copy.copy, as simulate() takes its records) before 1-3 steps; two '
+               'elements initialised from one profile list; a result the caller discards and overwrites / keeps across the '
+               'next step; two elements built from one thickness / material list; SurfFlux with a kept reference and a '
+               'shallow record. Oracle: the stored heat of the stepped element changes by dt x supplied heat as the '
+               'caller books it, nothing else changes, the same call twice gives the same result, the returned list is '
+               'a new object', mismatches=nbad, branches=br)
+
+    # ---- [1][2] somebody looks at the element between two steps
+    nbad, ncase, br = 0, 0, {}
+    looks = lookers()
+    for mode, impl in impls:
+        tol = F(0) if mode == 'exact' else F(1, 10 ** 9)
+        for shape in SHAPES:
+            for li, (lname, look) in enumerate(looks):
+                if not big and mode == 'float' and li not in (0, 4, 5):
+                    continue
+                base, steps = shaped_sequence(rng, shape)
+                ref, _ = run_sequence(impl, mode, base, steps)
+                got, el = run_sequence(impl, mode, base, steps, look)
+                ncase += 1
+                br['%s/%s' % (mode, shape)] = br.get('%s/%s' % (mode, shape), 0) + 1
+                msgs = []
+                fd = G.first_diff(got, ref)
+                if fd:
+                    msgs.append('profile after step %d differs from the sequence nobody looked at: %s vs %s'
+                                % (fd[0] + 1, [float(x) for x in (fd[1] or [])[:4]], [float(x) for x in (fd[2] or [])[:4]]))
+                prev = [_conv(mode)(x) for x in base['t']]
+                for i, (cs, r) in enumerate(zip(steps, got)):
+                    m = balance_msg(cs, prev, r, tol)
+                    if m and not msgs[1:]:
+                        msgs.append('step %d of the observed sequence: %s' % (i + 1, m))
+                    prev = r
+                if shape in ('steady', 'uniform') and mode == 'exact' and got[-1] != list(base['t']):
+                    msgs.append('%s profile moved by %.3g K over the sequence step, look, step' % (
+                        shape, max(abs(float(a - b)) for a, b in zip(got[-1], base['t']))))
+                if msgs:
+                    nbad += 1
+                    if nbad <= 3:
+                        chk.violation('impl-violation', 'somebody looks at the element between two steps (%s; %s arithmetic)'
+                                      % (lname, mode), case=dict(case_json(base), profile=shape, observer=lname,
+                                                                 steps=[case_json({k: c[k] for k in ('dt', 'bc', 'flx1', 'v2')})
+                                                                        for c in steps]),
+                                      observed=' | '.join(msgs[:3]),
+                                      expected='rendering an element is not a step: same profiles as the unobserved sequence, '
+                                               'energy balance at every step, steady / uniform profile fixed')
+    chk.direct('observers-between-steps(Conduction sequences)', ncase, ncase,
+               'circumstances [1][2] - who looks, logging level: sequences of 2-4 REAL Conduction steps on one element '
+               '(exact and float) with the element rendered after construction, between all steps and at the end by '
+               'repr / str / %r / print / every renderer of every reachable object (ToString, to_dict, copies, vars) / a '
+               'DEBUG log line with the element as lazy argument under a formatting handler / to_dict+json / copies; '
+               'profiles warm outside (descending with depth), cold outside, alternating, isothermal, steady with a '
+               'constant flux, random; 2..14 layers. Oracle: profiles identical to the sequence nobody looked at, energy '
+               'balance of every step against the caller\'s record of the previous profile, steady / uniform fixed',
+               mismatches=nbad, branches=br)
+
+    # ---- [5] other elements in the process: interleaved sequences, class-level data
+    nbad, ncase = 0, 0
+    for mode, impl in impls:
+        for _ in range(6 if not big else 40):
+            (b1, s1), (b2, s2) = shaped_sequence(rng, 'random'), shaped_sequence(rng, 'descending')
+            r1, _ = run_sequence(impl, mode, b1, s1)
+            r2, _ = run_sequence(impl, mode, b2, s2)
+            conv = _conv(mode)
+            e1, e2 = build_element(impl, b1, conv), build_element(impl, b2, conv)
+            o1, o2 = [], []
+            for i in range(max(len(s1), len(s2))):
+                if i < len(s1):
+                    e1.layerTemp = call_cond(e1, s1[i], conv); o1.append(list(e1.layerTemp))
+                if i < len(s2):
+                    e2.layerTemp = call_cond(e2, s2[i], conv); o2.append(list(e2.layerTemp))
+            ncase += 1
+            if o1 != r1 or o2 != r2:
+                nbad += 1
+                if nbad <= 2:
+                    chk.violation('impl-violation', 'two elements stepped alternately differ from each stepped alone (%s)' % mode,
+                                  case={'a': case_json(b1), 'b': case_json(b2)}, observed='interleaved results differ',
+                                  expected='an element\'s step depends on that element only')
+    changed = []
+    if U3.class_digest('uwgfrac')[0] != dg_frac0:
+        changed.append('fractionised package')
+    if U3.class_digest('uwg')[0] != dg_plain0:
+        changed.append('plain package')
+    if changed:
+        nbad += 1
+        chk.violation('impl-violation', 'class-level data changed by kernel operations', case={'packages': changed},
+                      observed='class-level / module-level data of %s differ after constructing, stepping and rendering '
+                               'elements' % ', '.join(changed), expected='constants')
+    chk.direct('other-elements-in-the-process(interleaved sequences, class-level data)', ncase + 2, ncase,
+               'circumstance [5]: two elements stepped alternately equal each stepped alone (exact and float); the digest '
+               'of every class-level / module-level object of the package is the same before and after all kernel '
+               'scenarios of this check', mismatches=nbad)
+
+    # ---- [4] the dictionary / JSON route of an Element
+    base_cs = gen_case(rng, kind='random', n=4)
+    base_cs.update(d=[F(1, 40), F(1, 20), F(1), F(2)], t=[F(305), F(301), F(296), F(294)])
+    el0 = build_element(plain, base_cs, float)
+    el0.vegcoverage, el0.t_init = 0.25, 293.0
+    base_d = json.loads(json.dumps(el0.to_dict()))
+
+    def behave(el):
+        el.layerTemp = [305.0, 301.0, 296.0, 294.0]
+        return [list(el.Conduction(300., 85., 1, 0., -12.5)), list(el.Conduction(900., 20., 2, 288., 0.))]
+    probs, br = U3.dict_route_problems(plain.element.Element, base_d, rng, behave)
+    for label, d, obs, exp in probs[:3]:
+        chk.violation('impl-violation', 'Element dictionary route: ' + label, case={'element_dictionary': d, 'member': label},
+                      observed=obs, expected=exp)
+    chk.direct('element-dictionary-route(hand-edited Element dictionaries)', sum(br.values()), sum(br.values()),
+               'circumstance [4] - the route: Element.from_dict on the JSON of to_dict() and on hand-edited variants: '
+               'every key absent / null, extra keys, every numeric key as int / float / numeric text, thickness and '
+               'material numbers as ints / text, the orientation flag written as bool / int / float / text (19 '
+               'spellings). Verdict = the one of the unchanged tree; an accepted dictionary gives the element of the '
+               'constructor route (attributes, two Conduction steps bit for bit) with the orientation the flag means; the '
+               'result does not depend on which Element dictionary was parsed before (a contrasting one is parsed in '
+               'between); the caller\'s dictionary and class-level data are left alone',
+               mismatches=len(probs), branches=br)
+
+    # ---- [3] python -O at kernel level
+    probs, nk = U3.kernel_verdict_problems(chk, 'C11')
+    for lab, obs, exp in probs[:2]:
+        chk.violation('impl-violation', 'kernel call under python -O / verdict of a refusal: ' + lab, case={'call': lab},
+                      observed=obs, expected=exp)
+    chk.direct('kernel-calls-under-python-O(Conduction, SurfFlux, Element.from_dict)', nk, nk,
+               'circumstance [3]: ordinary Conduction / SurfFlux / from_dict calls and every refusal the unchanged tree '
+               'expresses without `assert` (boundary kind 3 and 1.5, one layer, dt 0, reference temperature 0, missing '
+               'orientation key, orientation "false") in this process and in a fresh interpreter under python -O: '
+               'identical outcomes bit for bit, each refusal of the class the unchanged tree raises', mismatches=len(probs))
+
+    # ---- [1]-[6] on a compact live run
+    data = U3.default_data(month=rng.choice([1, 4, 7, 10]), day=rng.randint(1, 28))
+    nb = U3.planted_wall_data(month=rng.choice([2, 6, 11]))
+    res, probs = U3.live_circumstances(chk, data, UU.rp(UU.EPW_SGP), ('conduction',), 'live11',
+                                       neighbour=(nb, UU.rp(UU.EPW_SGP)))
+    for circ, obs, exp in probs[:3]:
+        chk.violation('impl-violation', 'live run under a circumstance that must not matter: ' + circ,
+                      case={'month': data['month'], 'day': data['day'], 'nday': 1, 'dtsim': 300, 'circumstance': circ,
+                            'epw': UU.EPW_SGP}, observed=obs, expected=exp)
+    calls = res['plain']['monitors']['conduction']['counts']
+    chk.direct('live-run-under-circumstances(Conduction monitor)', calls.get('calls', 0), len(res),
+               'a 1-day run (Singapore, dtsim 300, dictionary route) with EVERY Element.Conduction call monitored (pure: '
+               'the list passed in and every other attribute unchanged; result a new list; stored-heat change = dt x heat '
+               'supplied to 1e-9 for both boundary kinds), repeated [1] with the whole model rendered after '
+               'construction / generate() / every 41st step / at the end, [2] under DEBUG logging, [3] under python -O, '
+               '[4] through `python -m uwg simulate model` (real subprocess, and executed inside a monitored child), [5] '
+               'with another model generated and simulated between generate() and simulate(), [6] caller\'s dictionary '
+               'compared before / after: records, written file and verdict equal the plain run, the monitor holds '
+               'everywhere', mismatches=len(probs), branches={k: 1 for k in res})
+
+
 
 def run(chk):
     chk.proof(MODULE, THEOREMS, extra_modules=[SURF_MODULE])
@@ -499,5 +929,6 @@ def run(chk):
     chk.direct('energy-oracle(sequence on one object)', nst, nst, 'C11 statement at every step of every sequence',
                mismatches=seq_bad)
     run_surfflux(chk, pkg)
+    run_circumstances(chk, pkg)
     chk.assumptions.append('Element.Conduction is exercised through fracexec (exact rationals); '
                            'double rounding is outside the theorem')
